@@ -184,16 +184,11 @@ def truth_table(body, eb=None, max_atoms=6):
             if bb in sw:
                 key, pos, tt = sw[bb]
                 val = env[key] if pos else not env[key]
-                nxt = None
+                want_v = 1 if val else 0
+                nxt = tt["otherwise"]
                 for v, tg in tt["targets"]:
-                    if (v != 0) == val:
+                    if v == want_v:
                         nxt = tg
-                if nxt is None:
-                    nxt = tt["otherwise"] if val or all(v != 0 for v, _ in tt["targets"]) else tt["otherwise"]
-                    # switchInt(bool) -> [0: F, otherwise: T]
-                    if not val:
-                        zero = [tg for v, tg in tt["targets"] if v == 0]
-                        nxt = zero[0] if zero else tt["otherwise"]
                 bb = nxt
                 continue
             ss = body.succs(bb)
